@@ -380,3 +380,137 @@ Proof.
         cbn in Ei. inversion Ei. reflexivity. }
       split; [reflexivity|]. split; [exact Hok|]. split; [exact (conj HF12 HFt)|]. split; [reflexivity|]. cbn [length]. lia.
 Qed.
+
+(* ---------------------------------------------------------------- the whole read loop over a script
+   followed by a tail on which the packet read ends with class c whatever the interfaces *)
+Definition tail_ends (ro : ropts) (F : nat) (tail : list Z) (c : Z) : Prop :=
+  forall ws s g, sinv ws s -> (0 < g)%nat -> exists s'' l'', exec (readPacketG ro F g) s tail = ((s'', Err c), l'').
+
+Lemma read_all_script ro F c tail : ro_mixed ro = true -> tail_ends ro F tail c ->
+  forall n ops ws s acc fuel,
+  (length ops <= n)%nat -> (length ops < fuel)%nat -> (length ops < F)%nat ->
+  sinv ws s -> ops_ok ws ops -> fuel_ok F ops ->
+  exists s' l', run_d (read_all ro F fuel acc s) (enc_ops ops ++ tail) = ((rev acc ++ exp_pkts ws ops, c, s'), l').
+Proof.
+  intros Hmix Htail. induction n as [|n IH]; intros ops ws s acc fuel Hn Hfuel HFl Hs Hok HF.
+  - destruct ops; [|cbn in Hn; lia]. destruct fuel as [|f]; [cbn in Hfuel; lia|].
+    cbn [read_all enc_ops map concat app exp_pkts]. rewrite run_d_bind.
+    change (run_d (readPacket ro F s) tail) with (exec (readPacketG ro F F) s tail).
+    destruct (Htail ws s F Hs ltac:(lia)) as (s'' & l'' & E). rewrite E. cbn [snd fst run_d cls_of].
+    rewrite app_nil_r. eauto.
+  - destruct fuel as [|f]; [lia|]. cbn [read_all]. rewrite run_d_bind.
+    change (run_d (readPacket ro F s) (enc_ops ops ++ tail)) with (exec (readPacketG ro F F) s (enc_ops ops ++ tail)).
+    destruct (one_read ro F Hmix ops ws s F tail HFl Hs Hok HF) as (ws' & s1 & Hs1 & R).
+    destruct (exp_pkts ws ops) as [|p ps] eqn:Ep.
+    + rewrite R. destruct (Htail ws' s1 (F - length ops)%nat Hs1 ltac:(lia)) as (s'' & l'' & E). rewrite E.
+      cbn [snd fst run_d cls_of]. rewrite app_nil_r. eauto.
+    + destruct R as (t & R1 & R2 & R3 & R4 & R5). rewrite R1. cbn [snd fst].
+      destruct (IH t ws' s1 (p :: acc) f ltac:(lia) ltac:(lia) ltac:(lia) Hs1 R2 R3) as (s' & l' & E).
+      rewrite E. inversion R4; subst. cbn [rev]. rewrite <- app_assoc. cbn [app]. eauto.
+Qed.
+
+Lemma tail_ends_nil ro F : tail_ends ro F [] 1.
+Proof. intros ws s g _ Hg. destruct g as [|g]; [lia|]. rewrite rpg_eof. eauto. Qed.
+
+(* ---------------------------------------------------------------- section header block, NewNgReader *)
+Definition shb_options (sec : secinfo) : list (Z * list Z) :=
+  opt_if_nonempty 4 (sc_app sec) ++ opt_if_nonempty 1 (sc_comment sec)
+  ++ opt_if_nonempty 2 (sc_hw sec) ++ opt_if_nonempty 3 (sc_os sec).
+
+Lemma shb_fold sec : fold_left sstep (shb_options sec) empty_sec = sec.
+Proof. destruct sec as [hw os app cm]. unfold shb_options. cbn [sc_hw sc_os sc_app sc_comment]. destruct hw, os, app, cm; reflexivity. Qed.
+
+Lemma shb_options_ok sec : sec_ok sec -> Forall sopt_ok (shb_options sec) /\ 0 <= opts_bytes (shb_options sec) < 300000
+  /\ (length (shb_options sec) <= 4)%nat.
+Proof.
+  intros (H1 & H2 & H3 & H4). unfold shb_options, str_ok in *.
+  assert (forall c v, 0 < c < 65536 -> zlen v < 65536 -> Forall sopt_ok (opt_if_nonempty c v)) as A.
+  { intros c v Hc Hv. destruct v; cbn [opt_if_nonempty]; constructor; [|constructor]. unfold sopt_ok; cbn [fst snd]. lia. }
+  assert (forall c v, (length (opt_if_nonempty c v) <= 1)%nat) as B by (intros c v; destruct v; cbn; lia).
+  split; [repeat (apply Forall_app; split); apply A; lia|]. rewrite !opts_bytes_app, !app_length.
+  pose proof (opts_bytes_nonempty 4 (sc_app sec)). pose proof (opts_bytes_nonempty 1 (sc_comment sec)).
+  pose proof (opts_bytes_nonempty 2 (sc_hw sec)). pose proof (opts_bytes_nonempty 3 (sc_os sec)).
+  pose proof (B 4 (sc_app sec)). pose proof (B 1 (sc_comment sec)). pose proof (B 2 (sc_hw sec)). pose proof (B 3 (sc_os sec)).
+  split; lia.
+Qed.
+
+Definition shb_fixed : list Z := le_bytes 2 1 ++ le_bytes 2 0 ++ le_bytes 8 18446744073709551615.
+
+Lemma enc_shb_shape sec : sec_ok sec ->
+  let L := zlen (opts_enc (shb_options sec)) + 28 in
+  enc_shb sec = [10;13;13;10] ++ le_bytes 4 L ++ [77;60;43;26] ++ shb_fixed ++ opts_enc (shb_options sec) ++ le_bytes 4 L
+  /\ 28 <= L < 4294967296.
+Proof.
+  intros Hs. destruct (shb_options_ok sec Hs) as (_ & Hb & _). cbv zeta. unfold enc_shb. fold (shb_options sec).
+  rewrite opts_size_small by lia.
+  assert (match shb_options sec with [] => 0 | _ :: _ => opts_bytes (shb_options sec) + 4 end = zlen (opts_enc (shb_options sec))) as ->
+    by (rewrite zlen_opts_enc; reflexivity).
+  assert (0 <= zlen (opts_enc (shb_options sec)) <= opts_bytes (shb_options sec) + 4) as Hz
+    by (rewrite zlen_opts_enc; destruct (shb_options sec); [cbn; lia|lia]).
+  rewrite u32_small by lia.
+  replace (zlen (opts_enc (shb_options sec)) + 24 + 4) with (zlen (opts_enc (shb_options sec)) + 28) by lia.
+  change (le_bytes 4 BT_SHB) with [10;13;13;10]. change (le_bytes 4 BOM) with [77;60;43;26].
+  split; [|lia]. unfold shb_fixed. repeat rewrite <- app_assoc. reflexivity.
+Qed.
+
+Lemma exec_readBlock_shb s L rest : r_big s = false -> 12 <= L < 4294967296 ->
+  exec readBlock s ([10;13;13;10] ++ le_bytes 4 L ++ [77;60;43;26] ++ rest)
+  = ((set_block s false BT_SHB (L - 12), Ok tt), rest).
+Proof.
+  intros Hbig HL. unfold exec, readBlock. cbn [run_d].
+  rewrite (app_assoc [10;13;13;10]). rewrite zlen_app, zlen_app, zlen_le_bytes.
+  pose proof (zlen_nonneg ([77;60;43;26] ++ rest)).
+  change (zlen [10;13;13;10]) with 4.
+  assert (8 <=? 4 + Z.of_nat 4 + zlen ([77;60;43;26] ++ rest) = true) as -> by lia.
+  cbn [Z.leb Z.compare].
+  replace (Z.to_nat 8) with (length ([10;13;13;10] ++ le_bytes 4 L)) by (rewrite app_length, le_bytes_length; reflexivity).
+  rewrite firstn_app_exact, skipn_app_exact. rewrite Hbig. unfold getu.
+  rewrite (sl_0 [10;13;13;10]) by reflexivity.
+  change (le_val [10;13;13;10]) with BT_SHB. rewrite Z.eqb_refl.
+  cbn [run_d]. cbn [Z.leb Z.compare].
+  assert (4 <=? zlen ([77;60;43;26] ++ rest) = true) as -> by (rewrite zlen_app; change (zlen [77;60;43;26]) with 4; pose proof (zlen_nonneg rest); lia).
+  change (Z.to_nat 4) with (length [77;60;43;26]). rewrite firstn_app_exact, skipn_app_exact.
+  change (be_val [77;60;43;26] =? BOM) with false. change (le_val [77;60;43;26] =? BOM) with true. cbv iota.
+  rewrite (sl_skip [10;13;13;10] _ 4 4 8) by (try reflexivity; lia). cbn [Nat.sub].
+  rewrite sl_all by apply le_bytes_length.
+  rewrite le_val_le_bytes by (change (256 ^ Z.of_nat 4) with 4294967296; lia).
+  cbn [run_d]. rewrite u32_small by lia. replace (L - 8 - 4) with (L - 12) by lia. reflexivity.
+Qed.
+
+Lemma exec_newReader ro F sec rest : ro_mixed ro = true -> sec_ok sec -> (6 < F)%nat ->
+  exists s', exec (newReader ro F) init_rst (enc_shb sec ++ rest) = ((s', Ok tt), rest)
+    /\ r_big s' = false /\ r_ifaces s' = [] /\ r_sect s' = sec.
+Proof.
+  intros Hmix Hs HF. pose proof (enc_shb_shape sec Hs) as (Hshape & HL). cbv zeta in *.
+  destruct (shb_options_ok sec Hs) as (Hok & Hb & Hlen).
+  rewrite Hshape. repeat rewrite <- app_assoc.
+  set (L := zlen (opts_enc (shb_options sec)) + 28) in *.
+  unfold newReader. rewrite exec_bind.
+  assert (forall s l, exec (fun s0 : rst => Peek2 (fun bs st => match st with
+             | RsOk => Ret (s0, Ok bs) | RsEOF => Ret (s0, Err match bs with [] => 1 | _ :: _ => 2 end)
+             | RsFail => Ret (s0, Err 3) end)) s (10 :: 13 :: l) = ((s, Ok [10;13]), 10 :: 13 :: l)) as Hp.
+  { intros s l. unfold exec. cbn [run_d]. assert (2 <=? zlen (10 :: 13 :: l) = true) as -> by (unfold zlen; cbn [length]; lia). reflexivity. }
+  cbn [app]. rewrite Hp. cbv iota beta. change ((nthZ [10; 13] 0 =? 31) && (nthZ [10; 13] 1 =? 139)) with false. cbv iota.
+  change (10 :: 13 :: 13 :: 10 :: le_bytes 4 L ++ 77 :: 60 :: 43 :: 26 :: shb_fixed ++ opts_enc (shb_options sec) ++ le_bytes 4 L ++ rest)
+    with ([10;13;13;10] ++ le_bytes 4 L ++ [77;60;43;26] ++ shb_fixed ++ opts_enc (shb_options sec) ++ le_bytes 4 L ++ rest).
+  rewrite exec_bind, exec_readBlock_shb by (try reflexivity; lia). cbv iota beta.
+  rewrite exec_bind, exec_sget. cbv iota beta. sim. rewrite Z.eqb_refl. cbn [negb].
+  (* readSectionHeader *)
+  unfold readSectionHeader. rewrite exec_bind, exec_smod. cbv iota beta.
+  destruct F as [|f]; [lia|]. rewrite exec_bind. cbn [rsh_version].
+  rewrite exec_bind, exec_rd_app by reflexivity. cbv iota beta.
+  rewrite exec_bind, exec_sub_blen. cbv iota beta. rewrite exec_bind, exec_sget. cbv iota beta. sim.
+  change (getu false (sl shb_fixed 0 2)) with 1. change (getu false (sl shb_fixed 2 4)) with 0. cbn [Z.eqb Pos.eqb andb].
+  rewrite exec_sret. cbv iota beta.
+  rewrite exec_bind.
+  match goal with |- context [exec (shb_opts (S f) empty_sec) ?st _] =>
+    destruct (exec_opts_written_shb (S f) (shb_options sec) empty_sec st (le_bytes 4 L ++ rest))
+      as (s1 & E1 & B1 & K1); try assumption; try reflexivity; try lia;
+      try (sim; rewrite u32_small by lia; subst L; lia) end.
+  rewrite E1. cbv iota beta. rewrite shb_fold.
+  rewrite exec_bind, exec_sget. cbv iota beta. rewrite B1.
+  rewrite exec_bind, exec_disc_app by (rewrite zlen_le_bytes; reflexivity). cbv iota beta.
+  rewrite exec_bind, exec_smod. cbv iota beta. rewrite Hmix. rewrite exec_sret.
+  destruct (core_fields _ _ K1) as (D1 & D2 & D3 & D4 & D5 & D6 & D7 & D8 & D9 & D10 & D11 & D12). sim.
+  eexists; split; [reflexivity|]. sim. repeat split; auto.
+Qed.
